@@ -135,4 +135,42 @@ func casesIterative(c *caseCtx) {
 		}
 	}
 	fmt.Printf("halts=%d immediate=%d\n", halts, early)
+
+	// unbounded analyses that must end by themselves: forced mates, seen by a quiescence that looks beyond
+	// the horizon (TUROCHAMP's considerable moves include mating moves), so that a mate score can appear
+	// at a depth smaller than its distance
+	mateFENs := []string{"4k3/8/R7/1R6/8/8/8/K7 w - - 0 1", "7k/8/5K2/8/8/8/8/R7 w - - 0 1", "7k/8/5K2/6Q1/8/8/8/8 w - - 0 1", "k7/2K5/8/8/8/8/8/1R6 w - - 0 1", "6k1/5ppp/8/8/8/8/8/R3K3 w Q - 0 1"}
+	for _, f := range mateFENs {
+		for _, name := range []string{"turochamp", "morlock"} {
+			e, _ := bundledEngine(ctx, name, 0, 0, 0, false, 1)
+			if err := e.Reset(ctx, f); err != nil {
+				continue
+			}
+			out, err := e.Analyze(ctx, searchctl.Options{DepthLimit: lang.Some(uint(8))})
+			if err != nil {
+				continue
+			}
+			var last search.PV
+			n := 0
+			for pv := range out {
+				// an iteration that is not the last one must not already carry a mate within its depth
+				if n > 0 {
+					if md, ok := last.Score.MateDistance(); ok && int(md) <= last.Depth {
+						fmt.Printf("IMPLVIOL itermate %s %s :: analysis continued after depth %d although it had a forced mate in %d prop=C15 key=continued-after-mate\n", name, f, last.Depth, md)
+					}
+				}
+				last = pv
+				n++
+			}
+			_, _ = e.Halt(ctx)
+			if md, ok := last.Score.MateDistance(); ok {
+				if int(md) > last.Depth && last.Depth < 8 {
+					fmt.Printf("IMPLVIOL itermate %s %s :: analysis ended by itself at depth %d with a mate in %d plies, which is not within the searched depth prop=C15 key=ended-before-mate-depth\n", name, f, last.Depth, md)
+				}
+			} else if last.Depth < 8 {
+				fmt.Printf("IMPLVIOL itermate %s %s :: analysis ended at depth %d without a forced mate and below the limit prop=C15 key=ended-early\n", name, f, last.Depth)
+			}
+		}
+	}
+	fmt.Printf("COUNT matestop %d\n", 2*len(mateFENs))
 }
